@@ -199,6 +199,21 @@ def _varint_block(scope, sfx, ty):
 //@before 1 /let p__ = /
   proof { broadcast use axiom_venc_len_%(ty)s; }
 //@@end
+//@@fn file=bytes.rs src=expanded scope="%(scope)s" name=put_%(ty)s_varint_unchecked rename=put_%(ty)s_varint_unchecked%(sfx)s xlate=plain props=C14
+//@subst /let buf = unsafe \\{\\s*core::slice::from_raw_parts_mut\\(self\\.as_mut_ptr\\(\\)\\.add\\((.+?)\\), (.+?)\\)\\s*\\}\\s*;/ => let p__ = self.as_mut_ptr%(sfx)s(); let buf = self.win_from_raw_parts(p__.add(\\1), \\2);
+//@subst /dbutils::leb128::encode_%(ty)s_varint_to\\(value, buf\\)/ => self.buf_encode_varint_%(ty)s(value, buf)
+//@subst? /self\\.capacity\\(\\)/ => self.capacity%(sfx)s()
+//@contract
+  requires old(self).inv(), %(nullreq)s
+  ensures
+    spec_venc_%(ty)s(value).len() <= old(self).cap() - old(self).len, // [C14] documented panic otherwise: nothing is written past the buffer
+    same_handle(*old(self), *final(self)) && final(self).inv(), // [C14]
+    final(self).only_touched(*old(self), old(self).len as int, old(self).cap()), // [C14]
+    r as int == spec_venc_%(ty)s(value).len() && final(self).len == old(self).len + r
+      && final(self).mem@.subrange(old(self).off() + old(self).len as int, old(self).off() + old(self).len as int + r as int) == spec_venc_%(ty)s(value), // [C14]
+//@before 1 /let p__ = /
+  proof { broadcast use axiom_venc_len_%(ty)s; }
+//@@end
 //@@fn file=bytes.rs src=expanded scope="%(scope)s" name=get_%(ty)s_varint rename=get_%(ty)s_varint%(sfx)s xlate=plain props=C14
 //@subst /dbutils::leb128::DecodeVarintError/ => DecodeErr
 //@subst /dbutils::leb128::decode_%(ty)s_varint\\(self\\)/ => decode_varint_%(ty)s(self.deref%(sfx)s())
@@ -208,6 +223,24 @@ def _varint_block(scope, sfx, ty):
     r matches Ok(p) ==> 1 <= p.0 <= self.len, // [C14]
     forall|v: %(ty)s| (#[trigger] spec_venc_%(ty)s(v)).len() <= self.len && self.mem@.subrange(self.off(), self.off() + spec_venc_%(ty)s(v).len()) == spec_venc_%(ty)s(v)
       ==> r == Ok::<(usize, %(ty)s), DecodeErr>((spec_venc_%(ty)s(v).len() as usize, v)), // [C14]
+//@before 1 /decode_varint_/
+  proof {
+    broadcast use axiom_venc_len_%(ty)s;
+    assert forall|v: %(ty)s| (#[trigger] spec_venc_%(ty)s(v)).len() <= self.len && self.mem@.subrange(self.off(), self.off() + spec_venc_%(ty)s(v).len()) == spec_venc_%(ty)s(v)
+      implies self.mem@.subrange(self.off(), self.off() + self.len as int).subrange(0, spec_venc_%(ty)s(v).len() as int) == spec_venc_%(ty)s(v) by {
+      assert(self.mem@.subrange(self.off(), self.off() + self.len as int).subrange(0, spec_venc_%(ty)s(v).len() as int) =~= self.mem@.subrange(self.off(), self.off() + spec_venc_%(ty)s(v).len()));
+    }
+  }
+//@@end
+//@@fn file=bytes.rs src=expanded scope="%(scope)s" name=get_%(ty)s_varint_unchecked rename=get_%(ty)s_varint_unchecked%(sfx)s xlate=plain props=C14
+//@subst /dbutils::leb128::decode_%(ty)s_varint\\(self\\)/ => decode_varint_%(ty)s(self.deref%(sfx)s())
+//@contract
+  requires old(self).inv(), %(nullreq)s
+  ensures
+    *final(self) == *old(self), // [C14]
+    1 <= r.0 <= old(self).len, // [C14] documented panic otherwise: nothing past `len` is consumed
+    forall|v: %(ty)s| (#[trigger] spec_venc_%(ty)s(v)).len() <= old(self).len && old(self).mem@.subrange(old(self).off(), old(self).off() + spec_venc_%(ty)s(v).len()) == spec_venc_%(ty)s(v)
+      ==> r == (spec_venc_%(ty)s(v).len() as usize, v), // [C14]
 //@before 1 /decode_varint_/
   proof {
     broadcast use axiom_venc_len_%(ty)s;
@@ -236,6 +269,41 @@ fn roundtrip_varint_%(ty)s%(sfx)s(b: &mut Buf, v: %(ty)s)
 }
 ''' % dict(sfx=sfx, ty=ty)
 
+
+def _write_fixed_block(scope, sfx, ty, sz, o):
+    """write_<ty>_<o>: the std::io flavoured wrapper of put_<ty>_<o> (rule R24)"""
+    return '''
+//@@fn file=bytes.rs src=expanded scope="%(scope)s" name=write_%(ty)s_%(o)s rename=write_%(ty)s_%(o)s%(sfx)s xlate=plain props=C14
+//@subst /self\\.put_%(ty)s_%(o)s\\(/ => self.put_%(ty)s_%(o)s%(sfx)s(
+//@contract
+  requires old(self).inv(),
+  ensures
+    r.is_err() <==> old(self).len + %(sz)d > old(self).cap(), // [C14]
+    r.is_err() ==> *final(self) == *old(self), // [C14]
+    r.is_ok() ==> final(self).inv() && same_handle(*old(self), *final(self)) && final(self).len == old(self).len + %(sz)d
+      && final(self).mem@ == splice(old(self).mem@, old(self).off() + old(self).len as int, spec_to_%(o)s_%(ty)s(value)), // [C14]
+//@@end
+''' % dict(scope=scope, sfx=sfx, ty=ty, sz=sz, o=o)
+
+
+def _write_varint_block(scope, sfx, ty):
+    d = dict(scope=scope, sfx=sfx, ty=ty, nullreq=('old(self).null_arena ==> old(self).cap() == 0, ' if sfx else ''))
+    return '''
+//@@fn file=bytes.rs src=expanded scope="%(scope)s" name=write_%(ty)s_varint rename=write_%(ty)s_varint%(sfx)s xlate=plain props=C14
+//@subst /self\\.put_%(ty)s_varint\\(/ => self.put_%(ty)s_varint%(sfx)s(
+//@contract
+  requires old(self).inv(), %(nullreq)s
+  ensures
+    same_handle(*old(self), *final(self)) && final(self).inv(), // [C14]
+    final(self).only_touched(*old(self), old(self).len as int, old(self).cap()), // [C14]
+    r is Err <==> spec_venc_%(ty)s(value).len() > old(self).cap() - old(self).len, // [C14]
+    r is Err ==> final(self).len == old(self).len, // [C14]
+    r matches Ok(n) ==> n as int == spec_venc_%(ty)s(value).len() && final(self).len == old(self).len + n
+      && final(self).mem@.subrange(old(self).off() + old(self).len as int, old(self).off() + old(self).len as int + n as int) == spec_venc_%(ty)s(value), // [C14]
+//@@end
+''' % d
+
+
 def handles():
     with open(os.path.join(UNITS, 'U_handles.head.rs')) as f:
         head = f.read()
@@ -247,12 +315,15 @@ def handles():
         for ty, sz in INTS:
             for o in ORDERS:
                 parts.append(_fixed_block(scope, sfx, ty, sz, o))
+                parts.append(_write_fixed_block(scope, sfx, ty, sz, o))
                 rts.append(_roundtrip(sfx, ty, sz, o))
         for ty, _mx in VARINTS:
             parts.append(_varint_block(scope, sfx, ty))
+            parts.append(_write_varint_block(scope, sfx, ty))
             rts.append(_varint_roundtrip(sfx, ty))
         bufscope = "impl<A: Allocator> crate::Buffer for BytesRefMut<'_, A> {" if sfx == '' else 'impl<A: Allocator> crate::Buffer for BytesMut<A> {'
-        parts.append(fns.replace('%SCOPE%', scope).replace('%BUFSCOPE%', bufscope).replace('%SFX%', sfx))
+        wrscope = "impl<A: crate::Allocator> std::io::Write for BytesRefMut<'_, A> {" if sfx == '' else 'impl<A: crate::Allocator> std::io::Write for BytesMut<A> {'
+        parts.append(fns.replace('%WRSCOPE%', wrscope).replace('%SCOPE%', scope).replace('%BUFSCOPE%', bufscope).replace('%SFX%', sfx))
     parts.append('\n} // impl Buf\n')
     parts.extend(rts)
     with open(os.path.join(UNITS, 'U_handles.window.tpl')) as f:
